@@ -857,6 +857,12 @@ def part_binary(ctx, rep, seg):
         case["args"] = args
         return limited_run_delta(ctx, args, case["diff"].encode("utf-8"), ctx.n(6, 15))
     results = parallel_map(one, cases)
+    # a timeout on a loaded machine is not yet a hang: retry those once, alone, with a long timeout
+    # (a real non-terminating run ends by the address-space limit long before)
+    for i, (rc, out, err) in enumerate(results):
+        if rc == "timeout":
+            rep.count("binary:timeout-retried")
+            results[i] = limited_run_delta(ctx, cases[i]["args"], cases[i]["diff"].encode("utf-8"), 90)
     # segment every output row in one batch
     decoded = []
     for case, (rc, out, err) in zip(cases, results):
